@@ -240,6 +240,16 @@ NEEDS = {
     "C17-12": "an empty `{}` parameter file merged first: later root entries are invisible to `this.*` / keys filters, order-dependent",
     "C18-12": "`regex_replace` with several matches in one string: only the first is replaced",
     "C19-12": "a string with two or more consecutive blanks nested inside a list / map property value: blanks collapsed, rule FAILs on its own template",
+    "C01-13": "a filter on SCALAR elements after `[*]` (`ports[*][ this > 1024 ] <= 65535`): `this` inside the filter is no longer the element, nothing is selected, SKIP",
+    "C02-13": "a rule-level `when` whose condition is SKIP (nothing to compare): the body is evaluated anyway",
+    "C05-13": "`test --dir` with several tests files for one rules file: cases listed in per-process hash order",
+    "C07-13": "`-o sarif` with the same failing check in several data files: results de-duplicated without the file, later files lose theirs",
+    "C09-13": "a passing `not <rule>` clause inside a failing rule: the named rule's failing check is listed under the rule that holds the clause",
+    "C10-13": "a list with more than ten elements: the path of element 10 (and below it) is written `/:`",
+    "C12-13": "plain `validate` over documents of mixed shapes (template / settings file): the console rendering of later pairs follows the first document",
+    "C15-13": "a query-bound variable of which some entries are unresolved, referenced with a continuation (`%v.key`): the unresolved entries are dropped",
+    "C16-13": "an unmet SKIP expectation: every rendering shows an empty evaluated list",
+    "C18-13": "`json_parse` of the text `null`: dropped instead of a null value",
 }
 
 
